@@ -430,7 +430,7 @@ class AttackActorBaseComponent(ActorBaseComponent, ABC):
             return attackable_agents
         return np.random.choice(
             attackable_agents, size=number_of_attacks, replace=self.stacked_attacks
-        )
+        ).tolist()
 
     @abstractmethod
     def _determine_attack(self, agent, attack):
